@@ -651,7 +651,7 @@ func DrawRecurrent(r *rng.R, kind string) Recurrent {
 	c.Direction = r.Chance(1, 5)
 	c.ActAlphaBeta = r.Chance(1, 8)
 	c.NoY = r.Chance(1, 6)
-	if r.Chance(1, 4) {
+	if r.Chance(1, 3) {
 		switch kind {
 		case "RNN":
 			c.Acts = []string{pick(r, "tanh", "sigmoid", "relu")}
@@ -659,6 +659,14 @@ func DrawRecurrent(r *rng.R, kind string) Recurrent {
 			c.Acts = []string{pick(r, "sigmoid", "tanh"), pick(r, "tanh", "sigmoid", "relu")}
 		case "LSTM":
 			c.Acts = []string{pick(r, "sigmoid", "tanh"), pick(r, "tanh", "sigmoid"), pick(r, "tanh", "relu")}
+		}
+	}
+	if len(c.Acts) > 0 && r.Chance(1, 5) {
+		// a list that is shorter or longer than the operator needs (ONNX: 1 / 2 / 3 entries for forward RNN / GRU / LSTM)
+		if r.Bool() && len(c.Acts) > 1 {
+			c.Acts = c.Acts[:len(c.Acts)-1]
+		} else {
+			c.Acts = append(c.Acts, "tanh")
 		}
 	}
 	return c
